@@ -375,23 +375,7 @@ def run(cx):
     cx.at_least("R04b", "lexical errors inside the line loop", n_lex, 1)
 
     # ---------------- R04c
-    def _in_empty_branch(c):
-        prev = c
-        for a in ancestors(c):
-            if isinstance(a, ast.If) and isinstance(a.test, ast.Compare) and norm(a.test.left).startswith("len(") and isinstance(a.test.ops[0], ast.Eq) \
-                    and const(a.test.comparators[0], int) and a.test.comparators[0].value == 0 and any(prev is x or prev in list(ast.walk(x)) for x in a.body):
-                return True
-            prev = a
-        return False
-    empties = [c for c in walk_local(parse) if isinstance(c, ast.Call) and call_name(c) == "TElement" and any(k.arg == "start_pos" for k in c.keywords) and _in_empty_branch(c)]
-    cx.need(len(empties) == 1, "R04c", parse, "empty-node construction site")
-    c = empties[0]
-    kw = {k.arg: k.value for k in c.keywords}
-    same = norm(kw["start_pos"]) == norm(kw.get("end_pos"))
-    src = kw["start_pos"]
-    d = [v for _, v in assignments(parse, src.id) if v is not None] if isinstance(src, ast.Name) else [src]
-    ok = same and len(d) == 1 and norm(d[0]) == "tokens[top.cur_token_pos].start_pos"
-    cx.ob("R04c", c, ok, "empty node: start = end = start of the token under the cursor" if ok else "empty node span is not (start of the following token) x 2")
+    cx.guard(_r04c, cx, repo, parse)
     # ---------------- R04d
     # decided by interpreting the constructor over its finite cases: is_leaf given True / False, span given / absent
     from sa.finite import Interp, C, K, S, TOP
@@ -471,3 +455,66 @@ def _r04f(cx, repo):
               f"{f.name}: {muts[0][2]}, which may be the caller's own list of source lines `{p}`: the source text is changed, and get_orig_text of other elements on that line no longer returns their lexemes",
               stmt=f"{f.name} text purity")
     cx.at_least("R04f", "functions receiving the source text", n, 3)
+
+
+# -------------------------------------------------------------------------------------------- R04c
+def _emptiness(e, pol):
+    """(text of X, X is empty) when the must-fact says so: len(X) == 0 / != 0 / > 0 / >= 1 / < 1, `not X`, `X`"""
+    if isinstance(e, ast.Compare) and len(e.ops) == 1 and isinstance(e.left, ast.Call) and call_name(e.left) == "len" and len(e.left.args) == 1 \
+            and const(e.comparators[0], int):
+        k, op = e.comparators[0].value, type(e.ops[0])
+        x = e.left.args[0]
+        table = {(ast.Eq, 0): True, (ast.NotEq, 0): False, (ast.Gt, 0): False, (ast.GtE, 1): False, (ast.Lt, 1): True, (ast.LtE, 0): True}
+        if (op, k) in table:
+            r = table[(op, k)]
+            return x, (r if pol else not r)
+        return None
+    if isinstance(e, (ast.Name, ast.Attribute, ast.Subscript)):
+        return e, not pol
+    return None
+
+
+def _r04c(cx, repo, parse):
+    """A node that matched nothing gets an explicit empty span at the token under the cursor.  Decided on `parse` with its
+    private helpers expanded: the construction sites of TElement that pass a span are classified by the span expressions
+    (local names replaced by their definitions where that is valid at the site)."""
+    from sa.inline import inlined
+    from sa.guards import xnorm_at
+    fn, used = inlined(repo.modules[REL], parse)
+    sites = [c for c in walk_local(fn) if isinstance(c, ast.Call) and call_name(c) == "TElement" and any(k.arg == "start_pos" for k in c.keywords)]
+    empties = []
+    for c in sites:
+        kw = {k.arg: k.value for k in c.keywords}
+        sp = xnorm_at(kw["start_pos"], c)
+        ep = xnorm_at(kw["end_pos"], c) if "end_pos" in kw else None
+        if ep is not None and sp.endswith(".start_pos") and ep.endswith(".end_pos") and sp[:-len(".start_pos")] == ep[:-len(".end_pos")]:
+            continue        # a leaf: the token's own span (R04d)
+        empties.append((c, sp, ep))
+    cx.need(len(empties) == 1, "R04c", parse, f"empty-node construction site ({len(empties)} candidate(s) among {len(sites)} TElement(.., start_pos=..) sites)")
+    c, sp, ep = empties[0]
+    # the stack element whose production just matched: the receiver of `.symbol` in the node's first argument
+    cx.need(c.args and isinstance(c.args[0], ast.Attribute), "R04c", c, "the node's symbol is not read from the stack element")
+    recv = xnorm_at(c.args[0].value, c)
+    want = f"tokens[{recv}.cur_token_pos].start_pos"
+    if sp == want and ep == sp:
+        cx.ob("R04c", c, True, "empty node: start = end = start of the token under the cursor")
+    else:
+        import re as _re
+        pat = r"(tokens\[.*\]|[A-Za-z_][\w.]*(\[-?\d+\])?(\.\w+)*)\.(start_pos|end_pos)"
+        known = _re.fullmatch(pat, sp or "") and (ep is None or _re.fullmatch(pat, ep))
+        cx.need(known, "R04c", c, f"span of the empty node is not recognised: start={sp} end={ep}")
+        cx.ob("R04c", c, False, f"empty node span is ({sp}, {ep}), not (start of the token under the cursor) x 2 = {want}")
+    # emptiness: the site is reached only when the element has no children
+    emp = []
+    for e, pol in facts(c, expand_tests=True):
+        r = _emptiness(e, pol)
+        if r is not None:
+            emp.append((norm(r[0]), r[1]))
+    has = any(x in (f"{recv}.values",) and is_empty for x, is_empty in emp)
+    contradict = any(x == f"{recv}.values" and not is_empty for x, is_empty in emp)
+    if has:
+        cx.ob("R04c", c, True, "the explicit empty span is given only to a node without children", stmt=norm(c)[:60] + " [guard]")
+    elif contradict or not emp:
+        cx.ob("R04c", c, False, "the explicit empty span is given to nodes that have children (their span must come from the children)", stmt=norm(c)[:60] + " [guard]")
+    else:
+        cx.need(False, "R04c", c, f"the test guarding the empty-node site is not recognised: {emp}")
